@@ -161,13 +161,20 @@ def run(ctx):
     pool = ThreadPoolExecutor(max_workers=ctx.pick(2, 4))
     jobs = [(i, pool.submit(ctx.validate, 'C18_Trace', ev, None, None, None, 3600, False, 'c18_%d' % i)) for i, ev in batches]
     ctx.cov['traces_validated_against_impl'] += len(batches)
+    import os, collections
+    summary = collections.OrderedDict()
     for base, f in jobs:
         for (i, clause) in f.result():
+            summary.setdefault((clause, meta[base + i - 1][1], meta[base + i - 1][2]), []).append(events[base + i - 1]['x'])
             e, m = events[base + i - 1], meta[base + i - 1]
             key = {'clause': clause, 'config': m[1], 'via': m[2], 'obs_kind': e['obs']['k']}
             ctx.reject('C18 %s: %s %r -> %r  [%s, style %s, %s]' % (clause, m[2], e['x'], {k: v for k, v in e['obs'].items() if k != 'py'}, m[0], e['style'], m[1]),
                        key=key, data={'text': e['x'], 'tree': e['t'], 'obs': e['obs'], 'family': m[0], 'config': m[1]})
     pool.shutdown()
+    ctx.cov['rejections_by_clause'] = {'%s/%s/%s' % k: len(v) for k, v in summary.items()}
+    if os.environ.get('VERIF_DEBUG'):
+        for k, v in summary.items():
+            print('  [debug] %5d %s e.g. %r' % (len(v), k, v[:6]))
     ctx.assumptions += ['exact-fragment restriction: value/type judged only for trees all of whose intermediate results are exactly representable',
                         'BASIC type of the result read from the value object returned by the expression evaluator (sigil)',
                         'precedence parser Parse and renderer Toks of Expr.tla are inverse on every emitted tree (checked by TLC in the same run)']
